@@ -19,6 +19,9 @@
     their bounds were proved), p_i that should agree are proved equal and the refined result
     is rewritten with the equality, B_i across a new boundary is proved to be the Moebius
     image of B_(i+1) and rewritten; the remaining lemmas are those of a one-epoch problem.
+(6) Histories on ONE object: log_prob(tree A), log_prob(tree B), log_prob(tree A) on one
+    distribution object, and tree changes / parameter updates on one BDSKModel /
+    BirthDeathModel object, each value against a freshly built object on shared symbols.
 (5) Two epochs with DISTINCT rates against an independent two-epoch oracle (constant-rate
     solution of Stadler 2010 restarted at the boundary; reproduces the two-epoch BEAST2
     literals): the oracle's extinction probability at the boundary is proved equal to the
@@ -1721,6 +1724,10 @@ PLUMB_VARIANTS_2 = {
     'bdsk relative_times=False': ('BDSKModel', ['origin', 'times'], {'relative_times': False}),
     'bdsk times list': ('BDSKModel', ['origin'], {'times': [0.0, 3.6]}),
     'bdsk no origin': ('BDSKModel', ['rho'], {}),
+    # the epoch boundaries move with the tree: regular grid / relative times over (root edge + root height)
+    'bdsk origin_is_root_edge=True grid': ('BDSKModel', ['origin', 'rho'], {'origin_is_root_edge': True}),
+    'bdsk origin_is_root_edge=True relative_times=True': ('BDSKModel', ['origin', 'times'],
+                                                          {'origin_is_root_edge': True, 'relative_times': True}, {'times': [0.0, 0.7]}),
 }
 TWO = ' [2 epochs]'
 
@@ -1889,6 +1896,331 @@ def run_plumbing_task(variant, tr):
                          replay=lambda vals, w=which: plumb_replay(variant, w), timeout=5.0, varnodes=V, defined=False)
 
 
+# ========================================================= histories on ONE object
+# Every task above evaluates a freshly built object once.  Here ONE PiecewiseConstantBirthDeath object (resp. ONE BDSKModel /
+# BirthDeathModel object) goes through a history - log_prob(tree A); log_prob(tree B) with fresh symbolic node heights; log_prob(tree A)
+# again; for the models also fresh symbols assigned to R / delta / s / rho / origin / times between calls - and every value must be the
+# value of a freshly built object for the same symbols.  Relational on shared symbols: identical expressions close syntactically
+# (hash-consed DAG); anything that still mentions the symbols of an earlier call is a solver counterexample that is replayed on plain
+# tensors.  Vacuity guard: the second tree CAN change the value (solver: sat expected; and the two values differ at the witness).
+SIG_HIST = 'PiecewiseConstantBirthDeath.log_prob:value-depends-on-earlier-calls-on-the-same-object'
+
+
+def vacuity_guard(d, hyps, x, y, tr):
+    """can the two values differ?  (sat expected.)  The exp/log/sqrt applications are generalised to real variables, which keeps the
+    query polynomial; the caller additionally requires that the two values DO differ at the witness (a point of the true semantics)."""
+    ufs = sorted({n for n in d.topo([x, y] + list(hyps)) if d.ops[n] == 'uf'})
+    forms = cm.abstracted(d, ufs, [d.eq(x, y)] + list(hyps))
+    st, _, _ = prove(d, forms[1:], forms[0], timeout=5.0, tr=tr, label='vacuity guard', parallel=True)
+    return st
+SIG_HIST_MODEL = ':value-after-a-history-differs-from-a-freshly-built-model'
+
+
+def hist_cfg(**kw):
+    c = density_cfg(**kw)
+    c['kind'] = 'hist'
+    c['distinct'] = c['m'] == 2
+    return c
+
+
+def hist_label(c):
+    return (f"history on one distribution object: m={c['m']}{' (distinct rates)' if c['m'] == 2 else ''} n={c['n']} survival={c['survival']} "
+            f"origin={c['origin']} times={c['times']}")
+
+
+def hist_var_names(c):
+    hs = heights_names(c)
+    return [v for v in var_names(c) if v not in hs] + [h + tree for tree in 'AB' for h in hs]
+
+
+def hist_witness(c):
+    n = c['n']
+    W0 = initial_witness(c)
+    W = {k: v for k, v in W0.items() if k not in heights_names(c)}
+    for h in heights_names(c):
+        W[h + 'A'] = W0[h]
+    for i in range(n):
+        W[f's{i}B'] = 0.35 - 0.125 * i if i < 2 else 0.6
+    for j in range(n - 1):
+        W[f'c{j}B'] = 2.3 + 0.6 * j  # a different root height: grids that hang on the root move
+    return {k: W[k] for k in hist_var_names(c)}
+
+
+def hist_domain_for(c):
+    dom = domain_for(c)
+    hs = heights_names(c)
+
+    def domain(d, V):
+        cs = []
+        for tree in 'AB':
+            Vt = dict(V)
+            for h in hs:
+                Vt[h] = V[h + tree]
+            for x in dom(d, Vt):
+                if x not in cs:
+                    cs.append(x)
+        return cs
+
+    return domain
+
+
+def hist_values(c, mk):
+    """the history on ONE object and the values of freshly built objects: [(call, tree, value on the one object, fresh value)]"""
+    hs = heights_names(c)
+
+    def heights(tree):
+        return mk([h + tree for h in hs])
+
+    one = build_dist(c, mk)
+    hist = [one.log_prob(heights(tree)) for tree in 'ABA']
+    fresh = {tree: build_dist(c, mk).log_prob(heights(tree)) for tree in 'AB'}
+    return [(k + 1, tree, hist[k], fresh[tree]) for k, tree in enumerate('ABA')]
+
+
+def hist_replay(c, vals):
+    vals = {k: float(v) for k, v in vals.items() if k in hist_var_names(c)}
+    if set(vals) != set(hist_var_names(c)):
+        return False, 'incomplete counterexample'
+
+    def mk(items):
+        return torch.tensor([float(vals[x]) if isinstance(x, str) else float(x) for x in items], dtype=torch.float64)
+
+    try:
+        rows = hist_values(c, mk)
+    except Exception as e:
+        return True, f'real code raised {type(e).__name__}: {str(e)[:160]}'
+    for k, tree, a, b in rows:
+        a, b = float(a), float(b)
+        if (math.isnan(a) or math.isinf(a)) and (math.isnan(b) or math.isinf(b)):
+            continue
+        if not abs(a - b) <= 1e-9 * max(1.0, abs(b)):
+            return True, f'call {k} (tree {tree}) on the one object returns {a!r}, a freshly built object {b!r}'
+    return False, 'every call agrees with a freshly built object: ' + ', '.join(f'{float(a)!r}' for _, _, a, _ in rows)
+
+
+def make_hist_body(c, tr, state):
+    dom = hist_domain_for(c)
+    lab = hist_label(c)
+
+    def body(t, V, W):
+        d = t.dag
+
+        def mk(items):
+            from symtorch import from_ids
+
+            return from_ids(torch.tensor([V[x] if isinstance(x, str) else d.const(float(x)) for x in items], dtype=torch.int64))
+
+        try:
+            rows = hist_values(c, mk)
+        except Exception as e:
+            from symtorch.expr import EngineError
+
+            if isinstance(e, EngineError):
+                raise
+            return [Goal(f'{lab}: the history evaluates (the real code raised {type(e).__name__}: {str(e)[:100]})', d.FALSE, signature=SIG_HIST)]
+        goals = []
+        ids = {}
+        for k, tree, a, b in rows:
+            what = f'{lab}: call {k} (tree {tree}) on the one object == the value of a freshly built object'
+            if a._ids.numel() != 1 or b._ids.numel() != 1:
+                goals.append(Goal(what + f' (shapes {tuple(a.shape)}, {tuple(b.shape)})', d.FALSE, signature=SIG_HIST))
+                continue
+            I, O = int(a._ids.reshape(-1)[0]), int(b._ids.reshape(-1)[0])
+            ids[tree] = O
+            vi, vo = d.vals[I], d.vals[O]
+            finite = not (math.isnan(vi) or math.isinf(vi) or math.isnan(vo) or math.isinf(vo))
+            if I != O and finite and not abs(vi - vo) <= 1e-9 * max(1.0, abs(vo)):
+                goals.append(Goal(what + f' (at the region witness: {vi!r} vs {vo!r})', d.FALSE, signature=SIG_HIST))
+            else:
+                if I == O:
+                    state['syntactic'] = state.get('syntactic', 0) + 1
+                goals.append(Goal(what, d.eq(I, O), signature=SIG_HIST))
+        if not state.get('guard') and len(ids) == 2:  # vacuity guard, once per task (first region = the generic witness)
+            state['guard'] = True
+            st = vacuity_guard(d, dom(d, V) + list(t.pcs), ids['A'], ids['B'], tr)
+            differ = abs(d.vals[ids['A']] - d.vals[ids['B']]) > 1e-9
+            if st == 'proved' or not differ:
+                tr.inconc(f'{lab}: vacuous - the second tree does not change the value (solver: {st}; at the witness: '
+                          f'{d.vals[ids["A"]]!r}, {d.vals[ids["B"]]!r})')
+        return goals
+
+    return body
+
+
+def run_hist_task(c, tr):
+    from torchtree.evolution.bdsk import PiecewiseConstantBirthDeath as P
+
+    tr.fn(P.log_prob, P.log_p, P.log_q)
+    label = hist_label(c)
+    state = {}
+    ex = Explorer(hist_witness(c), hist_domain_for(c), make_hist_body(c, tr, state), tr, max_regions=c.get('budget', 2),
+                  timeout=20.0, label=label, check_defined=False, require_closure=False, deadline=time.time() + 300)
+    out = ex.run()
+    for s_ in out.region_samples[:1]:
+        s_['case'] = label
+        s_['calls closed syntactically (same expression as a fresh object)'] = state.get('syntactic', 0)
+        tr.sample(s_)
+    triage(out, lambda vals: hist_replay(c, vals), tr, label, {'hist_cfg': c})
+    return out
+
+
+# ---- the model wrappers
+def model_hist_variants():
+    return [v for v in plumb_variants() if not (v.endswith(TWO) and 'removal_probability' in v)]
+
+
+MODEL_HIST_HEIGHTS = {'A': [1.0, 2.0], 'B': [0.75, 2.6]}  # internal heights of ((0,1),2), tips at 0.5, 0, 0.2
+UPDATED = {'R': 1.25, 'delta': 0.8, 's': 1.2, 'rho': 0.5, 'origin': 1.3, 'lambda': 0.9, 'mu': 1.1, 'psi': 0.7, 'removal_probability': 0.9}
+
+
+def model_history(variant, T):
+    """T(name, values) -> 1-d tensor standing for that group of inputs (symbolic or plain).
+    Returns [(step, value of the ONE model object, value of a freshly built model given the same inputs)]."""
+    import torchtree.evolution.bdsk  # noqa: F401  (registers the classes)
+    import torchtree.evolution.birth_death  # noqa: F401
+
+    _, _, opts, values = plumb_spec(variant)
+    js, keys = plumb_json(variant)
+    state = {k: T(k, values[k]) for k in keys}
+    trees = {tree: T('heights' + tree, MODEL_HIST_HEIGHTS[tree]) for tree in 'AB'}
+    newer = {k: T(k + "'", [x * UPDATED[k] for x in values[k]]) for k in keys if k in UPDATED}
+
+    def assign(dic, which, tree):
+        for k in keys:
+            if 'p_' + k in dic:
+                dic['p_' + k].tensor = which[k]
+        dic['tree.heights'].tensor = trees[tree]
+
+    def fresh(which, tree):
+        m, dic = cm.build(js)
+        assign(dic, which, tree)
+        return m()
+
+    model, dic = cm.build(js)
+    rows = []
+    assign(dic, state, 'A')
+    rows.append(('first call, tree A', model(), fresh(state, 'A')))
+    dic['tree.heights'].tensor = trees['B']
+    rows.append(('after the tree changed to B', model(), fresh(state, 'B')))
+    dic['tree.heights'].tensor = trees['A']
+    rows.append(('after the tree changed back to A', model(), fresh(state, 'A')))
+    cur_ = dict(state)
+    for k in keys:  # one parameter at a time, evaluating after each update
+        if k in newer and 'p_' + k in dic:
+            dic['p_' + k].tensor = newer[k]
+            cur_[k] = newer[k]
+            rows.append((f'after {k} was updated', model(), fresh(cur_, 'A')))
+    dic['tree.heights'].tensor = trees['B']
+    rows.append(('after every update, tree B', model(), fresh(cur_, 'B')))
+    return rows
+
+
+def model_hist_names(variant):
+    _, _, _, values = plumb_spec(variant)
+    _, keys = plumb_json(variant)
+    groups = {k: len(values[k]) for k in keys}
+    groups.update({k + "'": len(values[k]) for k in keys if k in UPDATED})
+    groups.update({'heightsA': 2, 'heightsB': 2})
+    return groups
+
+
+def model_hist_replay(variant, vals):
+    groups = model_hist_names(variant)
+    need = [f'{g}[{i}]' for g, n_ in groups.items() for i in range(n_)]
+    if any(k not in vals for k in need):
+        return False, 'incomplete counterexample'
+
+    def T(name, values):
+        return torch.tensor([float(vals[f'{name}[{i}]']) for i in range(len(values))], dtype=torch.float64)
+
+    try:
+        rows = model_history(variant, T)
+    except Exception as e:
+        return True, f'real code raised {type(e).__name__}: {str(e)[:160]}'
+    for step, a, b in rows:
+        a, b = a.reshape(-1).double(), b.reshape(-1).double()
+        if a.shape != b.shape or not torch.allclose(a, b, rtol=1e-9, atol=1e-9, equal_nan=True):
+            return True, f'{step}: the one model object returns {a.tolist()}, a freshly built model {b.tolist()}'
+    return False, 'every step agrees with a freshly built model'
+
+
+def run_model_hist_task(variant, tr):
+    from torchtree.evolution.bdsk import BDSKModel
+    from torchtree.evolution.birth_death import BirthDeathModel
+    from torchtree.core.model import CallableModel
+
+    tr.fn(BDSKModel._call, BirthDeathModel._call, CallableModel.__call__, CallableModel.handle_model_changed,
+          CallableModel.handle_parameter_changed)
+    model_name = plumb_spec(variant)[0]
+    label = f'history on one {model_name} object [{variant}]'
+    sig = model_name + SIG_HIST_MODEL
+    with tracing() as t:
+        d = t.dag
+        V = {}
+
+        def T(name, values):
+            st = new_vars(name, torch.tensor(values, dtype=torch.float64))
+            for i, x in enumerate(st._ids.reshape(-1).tolist()):
+                V[f'{name}[{i}]'] = int(x)
+            return st
+
+        goals = []
+        try:
+            rows = model_history(variant, T)
+        except Exception as e:
+            from symtorch.expr import EngineError
+
+            if isinstance(e, EngineError):
+                raise
+            rows = []
+            goals.append((f'the history evaluates (it raised {type(e).__name__}: {str(e)[:80]})', d.FALSE))
+        nsyn = 0
+        for step, a, b in rows:
+            if not isinstance(a, SymTensor) or not isinstance(b, SymTensor) or tuple(a.shape) != tuple(b.shape):
+                goals.append((f'{step}: model() of the one object is a value of the shape a freshly built model returns', d.FALSE))
+                continue
+            ai, bi = a._ids.reshape(-1).tolist(), b._ids.reshape(-1).tolist()
+            nsyn += ai == bi
+            text = f'{step}: model() of the one object == model() of a freshly built model given the same symbols'
+            apart = [(d.vals[int(x)], d.vals[int(y)]) for x, y in zip(ai, bi)
+                     if x != y and not abs(d.vals[int(x)] - d.vals[int(y)]) <= 1e-9 * max(1.0, abs(d.vals[int(y)]))]
+            if apart:  # already different at the witness: nothing to prove, the solver's point and the witness go to the replay
+                goals.append((text + f' (at the witness: {apart[0][0]!r} vs {apart[0][1]!r})', d.FALSE))
+            else:
+                goals.append((text, d.and_(*[d.eq(int(x), int(y)) for x, y in zip(ai, bi)])))
+        if t.concretized:
+            tr.inconc(f'{label}: symbolic value concretised: {t.concretized[:3]}')
+            return
+        tr.witness_runs += 1
+        tr.regions += 1
+        tr.ops_checked += t.nchecked
+        tr.sample({'case': label, 'steps': [r[0] for r in rows], 'steps closed syntactically': int(nsyn)})
+        hyps = list(t.pcs)
+        if len(rows) >= 2:  # vacuity guard: the tree (step 2) and the parameters (last steps) CAN change the value
+            for i, j, whatg in ((0, 1, 'the second tree'), (2, len(rows) - 2, 'the updated parameters')):
+                x, y = int(rows[i][2]._ids.reshape(-1)[0]), int(rows[j][2]._ids.reshape(-1)[0])
+                st = vacuity_guard(d, hyps, x, y, tr)
+                if st == 'proved' or not abs(d.vals[x] - d.vals[y]) > 1e-9:
+                    tr.inconc(f'{label}: vacuous - {whatg} do(es) not change the value (solver: {st}; witness {d.vals[x]!r}, {d.vals[y]!r})')
+        for text, node in goals:
+            cm.discharge(tr, d, hyps + ground_axioms(d, [node]), [(f'{label}: {text}', node, [], sig)], label,
+                         replay=lambda vals: model_hist_replay(variant, vals), timeout=10.0, varnodes=V, defined=False)
+
+
+def hist_tasks(tier):
+    H = hist_cfg
+    ts = []
+    combos = [('given', 'none'), ('given', 'abs'), ('given', 'rel'), ('root_edge', 'none'), ('root_edge', 'abs'), ('root_edge', 'rel'),
+              ('none', 'none')]  # times without an origin are not accepted by the class
+    for n in ((2,) if tier == 'quick' else (2, 3)):
+        for m in (1, 2):
+            for org, tm in combos:
+                for surv in (True, False):
+                    ts.append(('hist', H(m=m, n=n, origin=org, times=tm, survival=surv, budget=4 if tier == 'quick' else 12)))
+    ts += [('model-hist', v) for v in model_hist_variants()]
+    return ts
+
+
 # ===================================================================== tasks
 def density_cfg(**kw):
     c = dict(cls='PCBD', m=1, n=2, survival=True, removal=False, origin='given', times='none', rho_shape='full')
@@ -1963,7 +2295,7 @@ def tasks_for(tier):
             ts.append(('density', D(m=2, n=3, times='abs', cell=cell, split={'rho0': False})))
     else:
         ts.append(('cover', dict(n=2, cells=QUICK_CELLS, tips='positive', half=True, strict=True)))
-    ts += refine_tasks(tier) + distinct_tasks(tier)
+    ts += refine_tasks(tier) + distinct_tasks(tier) + hist_tasks(tier)
     ts += [('plumb', v) for v in plumb_variants()]
     ts.append(('beast', None))
     return ts
@@ -2092,6 +2424,10 @@ def _run_task(task, tr):
         return run_refine_task(arg, tr)
     if kind == 'refine-cover':
         return run_refine_cover_task(arg, tr)
+    if kind == 'hist':
+        return run_hist_task(arg, tr)
+    if kind == 'model-hist':
+        return run_model_hist_task(arg, tr)
     run_density_task(arg, tr)
 
 
@@ -2105,7 +2441,10 @@ def body(chk):
                        'symbols and the equality of the two results is decided by the same kind of chain, in which extinction '
                        'probabilities shared by the two runs are generalised to fresh variables after their bounds were proved and '
                        'proved equalities are used as rewrite rules (well-definedness of what was rewritten away is transferred back '
-                       'through the proved equalities); JSON plumbing decided on the expression DAG with one distinct symbol per '
+                       'through the proved equalities); histories on ONE distribution / model object (second tree with fresh symbols, '
+                       'parameter updates between calls) are compared call by call with freshly built objects on shared symbols: the '
+                       'same expression closes syntactically, a value that still depends on an earlier call is a solver counterexample '
+                       'replayed on plain tensors; JSON plumbing decided on the expression DAG with one distinct symbol per '
                        'documented key and epoch')
     chk.total.assumptions |= {
         'exp/log/sqrt are uninterpreted; only ground instances of their laws are used (congruence, exp(x+y)=exp(x)exp(y), exp(0)=1, '
@@ -2173,6 +2512,21 @@ def body(chk):
                'are certified to cover the two-epoch domain with rho > 0), each also with 0 < rho_1 < 1 at the boundary unless a tip sits '
                'on the boundary; n = 3: ' + ', '.join(CELLS_N3) + '; relative times (with and without a root edge), root edge, rho = 0 on '
                'single cells')),
+        'histories on one object': (
+            'ONE PiecewiseConstantBirthDeath object: log_prob(tree A); log_prob(tree B), fresh symbolic node heights (all tip and internal '
+            'heights, so the root height, the root-edge origin, a regular grid and relative boundaries move); log_prob(tree A) again; each '
+            'value == the value of a freshly built object for the same symbols.  1 and 2 epochs (2: distinct symbolic rates) x origin '
+            'given / root edge / omitted x times omitted (regular grid) / absolute / relative (times without an origin are not accepted '
+            'by the class) x survival on / off, '
+            + ('n = 2, up to 4 path regions per configuration (the generic witness first)' if quick else
+               'n = 2 and n = 3, up to 12 path regions per configuration')
+            + ' (explored regions only, no coverage certificate: the regions of two trees multiply).  ONE BDSKModel / BirthDeathModel '
+              'object built from JSON, tree ((0,1),2) with symbolic internal heights: model(); tree changed to B; back to A; then fresh '
+              'symbols assigned to R / delta / s / rho / origin / times / removal probability (lambda / mu / psi / rho / origin) one at a '
+              'time with an evaluation after each; tree B again; each value == model() of a freshly built model given the same symbols; '
+              'every plumbing variant (one and two epochs, incl. root edge with a regular grid and with relative times) except the '
+              'two-epoch removal probability (raises: known finding).  Vacuity guards: the second tree / the updated parameters can '
+              'change the value (solver sat, and the values differ at the witness)'),
         'JSON plumbing': 'every documented key of BDSKModel / BirthDeathModel with one epoch, and every key of BDSKModel once more with two '
                          'epochs (R, delta, s, rho, removal_probability of length 2, times [0, t1] given as parameter / list / omitted, '
                          'relative or absolute, origin given / root edge / omitted, survival on / off); BirthDeathModel is the constant-rate '
@@ -2195,6 +2549,11 @@ def replay_file(path):
         ok, detail = replay(r['cfg'], r['values'])
     elif 'refine_cfg' in r:
         ok, detail = refine_replay(r['refine_cfg'], r['values'])
+    elif 'hist_cfg' in r:
+        ok, detail = hist_replay(r['hist_cfg'], r['values'])
+    elif r.get('label', '').startswith('history on one '):
+        lab = r['label']
+        ok, detail = model_hist_replay(lab[lab.index('[') + 1:lab.rindex(']')], r['values'])
     else:
         lab = r.get('label', '')
         variant = lab[lab.index('[') + 1:lab.rindex(']')]
